@@ -400,7 +400,51 @@ func TestProp(t *testing.T) {
 		"non-trivial = >= 2 metadata segments, or one preceded by >= 2 other segments, with an XMP callback that under-reads (or no XMP segment); distinct by (stream, callback behaviour)")
 	rec.Assume("the Exif callback consumes exactly its declared length (the property's precondition); a nil callback means the segment is skipped")
 	rec.Assume("0xFF fill bytes before a marker (legal per T.81 B.1.1.2) are generated by a second check of the same oracle")
+	rec.Rule("exhaustive: one fixed stream (COM pad, APP0, Exif APP1 of 200 bytes, DRI, XMP APP1 of 300 bytes, APP2, second Exif APP1) with the pad swept byte by byte over one (quick) or three (thorough) 4 KiB reader buffers, under four callback behaviours: every marker, length field, prefix and payload crosses every buffer boundary at every phase")
 	pbt.RegressDir(t, rec)
+	{
+		mk := func(n int, salt byte) []byte {
+			b := make([]byte, n)
+			for i := range b {
+				b[i] = byte(i*7) ^ salt
+			}
+			return b
+		}
+		tiff := func(n int) []byte { return append([]byte("II*\x00\x08\x00\x00\x00"), mk(n-8, 0x5a)...) }
+		behaviours := []Case{
+			{ExifRead: "pieces", Pieces: []int{7}, XMPRead: "part", XMPPart: 29},
+			{ExifRead: "pieces", XMPRead: "all-odd"},
+			{ExifRead: "nil-callback", XMPRead: "nothing"},
+			{ExifRead: "pieces", Pieces: []int{4096}, XMPRead: "nil-callback"},
+		}
+		idx := 0
+		for pad := 0; pad <= rec.Env.Pick(4096+400, 3*4096+400); pad++ {
+			for _, bh := range behaviours {
+				idx++
+				if idx%rec.Env.Shards != rec.Env.Shard {
+					continue
+				}
+				c := bh
+				c.BufSize = 4096
+				c.Segs = []gen.Seg{
+					{Marker: 0xFE, Payload: bytes.Repeat([]byte{' '}, pad), Kind: "other"},
+					{Marker: 0xE0, Payload: []byte("JFIF\x00\x01\x02\x00\x00\x01\x00\x01\x00\x00"), Kind: "other"},
+					{Marker: 0xE1, Payload: append([]byte(gen.ExifPrefix), tiff(200)...), Kind: "exif"},
+					{Marker: 0xDD, Payload: []byte{0, 4}, Kind: "other"},
+					{Marker: 0xE1, Payload: append([]byte(gen.XMPPrefix), mk(300, 0x21)...), Kind: "xmp"},
+					{Marker: 0xE2, Payload: mk(50, 0x33), Kind: "other"},
+					{Marker: 0xE1, Payload: append([]byte(gen.ExifPrefix), tiff(64)...), Kind: "exif"},
+				}
+				c.Tail = append([]byte{0xFF, 0xDA, 0x00, 0x08, 0x01, 0x01, 0x00, 0x00, 0x3F, 0x00}, mk(80, 0x11)...)
+				rec.Case(true, ev.HashS("sweep", fmt.Sprint(pad, bh.ExifRead, bh.XMPRead)), "pad-sweep")
+				if f := eval(c); f != nil {
+					if pbt.Report(t, rec, chk.Name, c, f) {
+						return
+					}
+				}
+			}
+		}
+	}
 	if !pbt.Run(t, rec, chk, rec.Env.Pick(4000, 150000), 1) {
 		return
 	}
